@@ -300,7 +300,9 @@ func adapters() []*adapter {
 				return boolReply(ceApply(h, idx, structs.ConfigEntryDeleteCAS, ceEntry(sup, "")))
 			}},
 		{name: "ca-config-cas", kind: "cfg", noZero: true, read: caCfgRead,
-			put: func(h *sh.H, idx uint64, tag string) { caApply(h, idx, &structs.CARequest{Op: structs.CAOpSetConfig, Config: caCfg(0, tag)}) },
+			put: func(h *sh.H, idx uint64, tag string) {
+				caApply(h, idx, &structs.CARequest{Op: structs.CAOpSetConfig, Config: caCfg(0, tag)})
+			},
 			cond: func(h *sh.H, idx, sup uint64, tag string) string {
 				return boolReply(caApply(h, idx, &structs.CARequest{Op: structs.CAOpSetConfig, Config: caCfg(sup, tag)}))
 			}},
